@@ -42,26 +42,23 @@ pub fn collision_probability(b: f64, a: f64, kmax: u64, nu: u64, nv: u64, nw: u6
     // bucket 0: both > 1
     let mut p = surv(a, nu, nv, nw, 1.0, 1.0);
     // buckets 1 .. kmax-1 : (b^-k, b^(1-k)]
-    let mut k: u64 = 1;
-    // skip buckets whose upper end is so large that nothing survives: a * min(na,nb) * b^(1-k) > 800
-    // and stop when the remaining mass a * ntot * b^(1-k) is below 1e-18
-    while k < kmax {
-        let hi = (-(k as f64 - 1.0) * lnb).exp();
-        let lo = (-(k as f64) * lnb).exp();
-        if a * ntot * hi < 1e-18 {
-            break;
-        }
-        if a * na.min(nb) * lo <= 800.0 {
-            p += both_in(a, nu, nv, nw, lo, hi);
-        }
-        k += 1;
-        // fast forward over the dead region for small b
-        if a * na.min(nb) * lo > 1.0e6 {
-            let target = ((a * na.min(nb) / 900.0).ln() / lnb).floor();
-            if target > k as f64 + 1.0 && target < kmax as f64 {
-                k = target as u64;
-            }
-        }
+    // Only the k with a * nmin * b^-k <= 800 (something survives) and a * ntot * b^(1-k) >= 1e-18 (mass left) matter.
+    // For b extremely close to 1 that range still holds ~48/ln b buckets; the summand is then a smooth function of k
+    // (relative change ln b per step), so blocks of `stride` consecutive buckets are summed by the midpoint rule
+    // (relative error of order (stride * ln b)^2 <= 1e-8).
+    let nmin = na.min(nb);
+    let k_lo = if a * nmin > 800.0 { (((a * nmin / 800.0).ln() / lnb).floor() as u64).max(1) } else { 1 };
+    let k_hi_f = ((a * ntot * 1e18).ln() / lnb + 1.0).ceil();
+    let k_hi = if k_hi_f < 1.0 { 1 } else if k_hi_f >= kmax as f64 { kmax } else { k_hi_f as u64 }; // exclusive
+    let stride: u64 = if lnb < 1e-5 { ((1e-4 / lnb) as u64).max(1) } else { 1 };
+    let mut k = k_lo.min(kmax);
+    while k < k_hi {
+        let len = stride.min(k_hi - k);
+        let mid = k + len / 2;
+        let hi = (-(mid as f64 - 1.0) * lnb).exp();
+        let lo = (-(mid as f64) * lnb).exp();
+        p += len as f64 * both_in(a, nu, nv, nw, lo, hi);
+        k += len;
     }
     // clamp bucket: both <= b^(1-kmax)
     let h = (-(kmax as f64 - 1.0) * lnb).exp();
